@@ -15,6 +15,7 @@ must be exactly those line numbers, sorted.  The strict PVL, ODL and PDS3
 parsers must raise LexerError or ParseError on the same text.
 """
 from .. import core, gen, refparse, dialects, e1
+import pvl
 from ..core import Property, RunOut, Violation
 from ..gen import SEMI, EQ
 
@@ -75,7 +76,9 @@ class C08(Property):
                        "probe.eq-on-own-line",
                        "probe.dash-continuation-before-loss",
                        "probe.other-configuration-used-first",
-                       "probe.several-dash-continuations"]
+                       "probe.several-dash-continuations",
+                       "probe.custom-container-classes",
+                       "probe.label-handed-over-as-bytes"]
 
     def expected(self, toks):
         """(expected tree with ("empty", line), sorted lines) or None."""
@@ -122,10 +125,20 @@ class C08(Property):
             # another configuration used earlier in the same process must
             # not matter (state shared between parser instances)
             dialects.load(case["other_first"], text)
-        o = dialects.load("default", text)
+        custom = case.get("custom", False)
+        route = case.get("route", "str")
+        if route == "bytes":
+            o = dialects.load("default", text.encode(), custom=custom)
+        elif route == "binary-stream":
+            import io
+            kw = dialects.custom_kw(custom)
+            o = core.guarded(lambda: pvl.load(io.BytesIO(text.encode()),
+                                              **kw), len(text))
+        else:
+            o = dialects.load("default", text, custom=custom)
         if out is not None:
             out.evals += 1
-            out.log.ev("default", o.brief())
+            out.log.ev("default", route, str(custom), o.brief())
         if o.kind != "ok":
             viol("tolerant-load-failed",
                  "pvl.loads raised %s on text with %d missing value(s): %s; "
@@ -248,6 +261,16 @@ class C08(Property):
         other_first = rng.choice([None, None, "ISIS", "ISIS", "PVL"])
         if other_first:
             out.inc("probe.other-configuration-used-first")
+        # the default loader with the caller's own container classes, and
+        # fed bytes or a binary stream instead of a str
+        custom = rng.choice([True, "plain", "plain"]) \
+            if rng.random() < 0.15 else False
+        if custom:
+            out.inc("probe.custom-container-classes")
+        route = rng.choice(["bytes", "binary-stream"]) \
+            if rng.random() < 0.2 else "str"
+        if route != "str":
+            out.inc("probe.label-handed-over-as-bytes")
         for kind, lose in plans:
             lose = set(lose)
             keep_semi = rng.random() < 0.5
@@ -291,6 +314,10 @@ class C08(Property):
                     "lost": len(lose)}
             if other_first:
                 case["other_first"] = other_first
+            if custom:
+                case["custom"] = custom
+            if route != "str":
+                case["route"] = route
             out.violations.extend(self.execute_case(case, out))
         if out.violations:
             out.inc("violations", len(out.violations))
@@ -312,8 +339,9 @@ class C08(Property):
             c = {"tokens": [e1.tok_json(t) for t in ts],
                  "lines": [t.line for t in ts], "text": text,
                  "lost": case.get("lost", 0)}
-            if case.get("other_first"):
-                c["other_first"] = case["other_first"]
+            for k in ("other_first", "custom", "route"):
+                if case.get(k):
+                    c[k] = case[k]
             return c
 
         plain = rebuilt(toks)
